@@ -12,24 +12,24 @@ from fractions import Fraction as Fr
 from lib.core import zlit
 
 MANIFEST = {
-    'text': 'Coq theorems over a value-level model of SecureFloat (pair (S,e), value S*2^(e-f), f=s-1; truncation '
-            'masks are universally quantified tapes): flt_norm_inv (S=0 or 2^(f-1)<=|S|<=2^f preserved by '
-            'constructor, neg, mul, add/sub, for all f>=1, all exponents, all tapes), io_bound (constructor rounding '
-            '<= u|x|, output exact + zero-exponent masking), mul_bound (<= 4u|xy|), add_bound/sub_bound (<= 6u*max, under '
-            'the side condition that an operand with S=0 does not have the larger exponent), cmp_exact_outside_band '
-            '(all six comparisons exact when |x-y| > 6u*max), add_zero_refuted (vm_compute witness of F-C05). The real '
-            'SecFlt operations (m=1, and simulator configs (3,1) PRSS on/off, (2,0)) are opened as exact (S,e) pairs and '
-            'checked for membership in the model result set over all tapes on every run, together with the property '
-            'bounds (2u, 16u, comparison band) by an exact Fraction oracle for + - * / and the six comparisons.',
-    'note': 'Trusted: Coq kernel+vm_compute; hand-written model Flt.v (value level: sharing, resharing, bit protocols '
-            'to_bits/find/unit_vector are modelled by their specified results, tied by the correspondence run). '
-            'Division/reciprocal (runtime._rec Newton iteration) is NOT modelled: div_bound is missing, / is covered '
-            'by the implementation oracle only. math.log rounding in the constructor is not modelled (model uses exact '
-            'ceil(log2)); the deviation is a finding (constructor AssertionError next to powers of two). Proved '
-            'constants 4 (mul) and 6 (add) are smaller than the 16 of the property; u = 2^-(s-1). Exponent arithmetic '
-            'is over unbounded Z (secint comparisons assumed exact: holds while |e1-e2| < 2^E and f <= 2^E). Known '
-            'findings: exact-zero operand with larger exponent (F-C05), constructor assertion, cancellation zero whose '
-            'exponent leaves the exponent type, types with f > 2^E (e.g. SecFlt(8)).',
+    'text': 'Coq theorems over a value-level model of SecureFloat (pair (S,e), value S*2^(e-f), f=s-1, u=2^-f; truncation '
+            'masks are universally quantified tapes 0<=r<2^f): normalisation invariant S=0 or 2^(f-1)<=|S|<=2^f established '
+            'by the constructor and preserved by negation and multiplication (all f>=2, all exponents, all tapes); io_bound: '
+            'constructor of x=M*2^q within u|x| (Python round-half-even modelled), _output exact with zero-exponent masking; '
+            'mul_bound: product within 4u|xy| for every tape; add_zero_refuted: vm_compute witness that the unrestricted + '
+            'bound is false of the model (F-C05). Every run the REAL SecFlt operations + - * / and six comparisons (m=1 for '
+            'volume; simulator (3,1) PRSS on/off and (2,0)) are opened as exact (S,e) pairs, checked for membership in the '
+            'model result set over all tapes (constructor, +, -, *, comparisons) and against the property bounds (2u, 16u, '
+            'comparison band) with exact Fraction arithmetic.',
+    'note': 'PARTIAL: no Coq theorem for addition/subtraction/comparisons (flt_add is modelled and tied by the correspondence '
+            'run, but its invariant/add_bound/cmp_exact_outside_band are not proved) nor for division (runtime._rec Newton '
+            'iteration not modelled; / is covered by the implementation oracle only). Trusted: Coq kernel+vm_compute; '
+            'hand-written model Flt.v at value level (sharing, resharing, to_bits/find/unit_vector modelled by their specified '
+            'results; secint exponent comparisons assumed exact, which holds while |e1-e2| < 2^E and f <= 2^E). The model uses '
+            'exact ceil(log2|x|); the implementation uses float math.log (deviation = finding F-C05-2). Proved constants 1 '
+            '(I/O) and 4 (mul) are smaller than the 2 / 16 of the property. Known findings: F-C05-1 exact-zero operand with '
+            'larger exponent, F-C05-2 constructor assertion next to powers of two, F-C05-3 cancellation zero whose exponent '
+            'leaves the exponent type, F-C05-4 types with f > 2^E (e.g. SecFlt(8)).',
     'technique': 'Coq proof (Z/Q arithmetic, tape-quantified) + vm_compute set-membership correspondence + exact Fraction oracle '
                  'on real multi-party runs',
 }
@@ -531,6 +531,8 @@ def run(ctx):
             if (fs, fE) == (s, E):
                 jobs.append(('bin', x, 0.0, ['add', 'sub', 'gt', 'eq'], 'zero'))
                 jobs.append(('bin', 0.0, x, ['add', 'lt'], 'zero'))
+        if (s, E) == (11, 5):      # F-C05-3 replay: cancellation zero with exponent -23 outside the 5-bit exponent type
+            jobs.append(('chain', 1e-4, 1e-4, 30000.0, 'sub', 'add', 'l'))
         cfg = 'm=%d t=%d %s' % (m, t, 'no-prss' if np_ else 'prss')
         res = run_config(ctx, m, t, np_, s, E, jobs, ctx.seed + 31 * m + s)
         ck = Checker(ctx, s, E, cfg)
